@@ -232,8 +232,11 @@ def run_c16(ctx):
             # the job ended without ever evaluating that setting: if it failed, that is
             # the code under test (reported as for any other job); otherwise the harness
             check_child(cp, what)
-            raise HarnessError("{}: the kill point was never reached (rc {}): {}".format(
-                what, cp.returncode, (cp.stderr or "")[-300:]))
+            # ... and if it ended normally, it never evaluated a setting of a batch it
+            # was asked to grow (every candidate batch is requested or missing)
+            raise Violation("job-skipped-requested-batch",
+                            "{} ended (rc {}) without ever evaluating a setting of batch {}, which it "
+                            "was to grow".format(what, cp.returncode, kb))
         w.fired["job-killed-while-running"] += 1
         ctx.t(what, "pre-empted while evaluating a setting of batch", kb)
         after_tree = G.snapshot_tree(os.path.join(location, "results")) or {}
